@@ -232,6 +232,30 @@ def run(ctx):
                 sample=[s.as_dict() for s in m.sites],
             )
     ctx.anchor("equal/not_equal/isclose methods", nm, 9)
+
+    # ---- allclose = all(isclose(...)) with the tolerances passed through --------------------------------
+    import ast
+    from ..loader import facts, unparse
+    ctx.rule("C12.allclose", "allclose(other, rtol, atol, equal_nan) is all() of isclose(other, rtol=rtol, atol=atol, equal_nan=equal_nan) with the same defaults")
+    n_all = 0
+    for relp in ("src/vector/backends/numpy.py", "src/vector/backends/awkward.py", "src/vector/backends/object.py", "src/vector/backends/sympy.py", "src/vector/_methods.py"):
+        mfacts = facts(relp, ctx.repo)
+        for cname, cnode in mfacts.classes.items():
+            for st in cnode.body:
+                if isinstance(st, ast.FunctionDef) and st.name == "allclose":
+                    body = [b for b in st.body if not (isinstance(b, ast.Expr) and isinstance(b.value, ast.Constant))]
+                    if len(body) == 1 and isinstance(body[0], ast.Raise):
+                        continue  # protocol stub
+                    n_all += 1
+                    params = [a.arg for a in st.args.args]
+                    defaults = [unparse(d) for d in st.args.defaults]
+                    ret = unparse(body[0].value) if len(body) == 1 and isinstance(body[0], ast.Return) and body[0].value is not None else None
+                    call = "self.isclose(other, rtol=rtol, atol=atol, equal_nan=equal_nan)"
+                    ok = params == ["self", "other", "rtol", "atol", "equal_nan"] and defaults == ["1e-05", "1e-08", "False"] \
+                        and ret in (f"{call}.all()", f"ak.all({call})", f"numpy.all({call})")
+                    ctx.ob("C12.allclose", f"{cname}.allclose", ok, f"parameters {params} defaults {defaults} body `{ret}`; expected all() of `{call}`",
+                           None, f"{relp}:{st.lineno}", sample={"class": cname, "body": ret})
+    ctx.anchor("allclose implementations", n_all, 7)
     ctx.decline("lib.isclose's own semantics for NaN/inf (== implies isclose is argued from the atom pairs being identical)")
     ctx.decline("operator forms (==, !=) reaching these methods: decided under C05 (ufunc/behavior tables)")
     ctx.decline("float rounding of converted coordinates in mixed-system comparisons")
